@@ -34,32 +34,32 @@ Section Seq.
     = map (fun a => (h a, ceval fe (c a))) args.
   Proof. induction args as [|a args IH]; [reflexivity|]. cbn [map combine]. rewrite IH. reflexivity. Qed.
 
-  Lemma silent_rest (L : list (nat * expr)) : Forall (fun p => se_closed fe (snd p) = true) L ->
+  Lemma silent_rest (L : list (nat * expr)) :
     filter nonempty (map s_tr (map (spec_of fe s) (filter (fun p => negb (has_se fe (snd p))) L))) = [].
   Proof.
-    induction 1 as [|[i a] L Ha _ IH]; [reflexivity|]. cbn [filter snd].
+    induction L as [|[i a] L IH]; [reflexivity|]. cbn [filter snd].
     destruct (has_se fe a) eqn:E; cbn [negb]; [exact IH|].
-    cbn [map filter]. unfold s_tr at 1, spec_of at 1. cbn [fst snd]. rewrite (unmarked_silent fe NW s a Ha E). cbn [nonempty]. exact IH.
+    cbn [map filter]. unfold s_tr at 1, spec_of at 1. cbn [fst snd]. rewrite (unmarked_silent fe NW s a E). cbn [nonempty]. exact IH.
   Qed.
 
-  Lemma noisy_concat (L : list (nat * expr)) : Forall (fun p => se_closed fe (snd p) = true) L ->
+  Lemma noisy_concat (L : list (nat * expr)) :
     concat (map s_tr (map (spec_of fe s) (filter (fun p => has_se fe (snd p)) L))) = flat_map (fun p => tr fe s (snd p)) L.
   Proof.
-    induction 1 as [|[i a] L Ha _ IH]; [reflexivity|]. cbn [filter snd flat_map].
+    induction L as [|[i a] L IH]; [reflexivity|]. cbn [filter snd flat_map].
     destruct (has_se fe a) eqn:E.
     - cbn [map concat]. unfold s_tr at 1, spec_of at 1. cbn [fst snd]. rewrite IH. reflexivity.
-    - rewrite (unmarked_silent fe NW s a Ha E). cbn [app]. exact IH.
+    - rewrite (unmarked_silent fe NW s a E). cbn [app]. exact IH.
   Qed.
 
   Lemma flat_map_number (g : expr -> list ev) args k : flat_map (fun p => g (snd p)) (number k args) = flat_map g args.
   Proof. revert k. induction args as [|a args IH]; intros k; [reflexivity|]. cbn. rewrite IH. reflexivity. Qed.
 
   Lemma call_seq f args t o :
-    Forall (arg_ok fe s) args -> Forall (fun a => se_closed fe a = true) args ->
+    Forall (arg_ok fe s) args ->
     exists o', ceval fe (CCallSeq f (combine (map (has_se fe) args) (map (comp fe) args))) (s, t) o =
                ((s, rev (tr fe s (ECall f args)) ++ t), val fe s (ECall f args), o').
   Proof.
-    intros Hargs Hcl. cbn [ceval]. rewrite mk_thunks2.
+    intros Hargs. cbn [ceval]. rewrite mk_thunks2.
     set (L := number O args).
     set (g := fun p : nat * expr => (fst p, (has_se fe (snd p), ceval fe (comp fe (snd p))))).
     assert (Eths : number O (map (fun a => (has_se fe a, ceval fe (comp fe a))) args) = map g L).
@@ -73,15 +73,13 @@ Section Seq.
     { rewrite filter_map_comm, map_map. reflexivity. }
     rewrite Et, Er.
     pose proof (Forall_number fe s args O Hargs) as HL. fold L in HL.
-    assert (HLc : Forall (fun p => se_closed fe (snd p) = true) L).
-    { unfold L. clear -Hcl. generalize O. induction Hcl; intros k; cbn; constructor; auto. }
     assert (HLt : Forall (fun p => arg_ok fe s (snd p)) Lt) by (apply Forall_forall; intros p Hp; apply filter_In in Hp; rewrite Forall_forall in HL; apply HL; tauto).
     assert (HLr : Forall (fun p => arg_ok fe s (snd p)) Lr) by (apply Forall_forall; intros p Hp; apply filter_In in Hp; rewrite Forall_forall in HL; apply HL; tauto).
     assert (HndL : NoDup (map fst L)) by (unfold L; rewrite number_fst; apply seq_NoDup).
     (* the temporaries, in order *)
     destruct (run_seq_spec s _ _ (pend_ok_map fe s Lt HLt) t o []) as (o1 & E1). rewrite E1. cbv beta iota zeta.
     (* the plain arguments, in any order: all silent *)
-    assert (Hamo : amo (map s_tr (map (spec_of fe s) Lr))) by (unfold amo, Lr; rewrite (silent_rest L HLc); cbn; lia).
+    assert (Hamo : amo (map s_tr (map (spec_of fe s) Lr))) by (unfold amo, Lr; rewrite (silent_rest L); cbn; lia).
     assert (Hndr : NoDup (map s_pos (map (spec_of fe s) Lr))).
     { rewrite map_map. change (fun x => s_pos (spec_of fe s x)) with (fun x : nat * expr => fst x). apply NoDup_map_filter. exact HndL. }
     destruct (run_unseq_spec s (length (map (thunk_of fe) Lr)) _ _ (pend_ok_map fe s Lr HLr) eq_refl Hamo Hndr
@@ -107,51 +105,49 @@ Section Seq.
             assert (p' = p) by (eapply NoDup_map_inj; eauto). subst p'. rewrite Ese in Hn. discriminate.
         + apply (V1 (spec_of fe s p)). apply in_map. apply filter_In. split; auto. rewrite Ese. reflexivity. }
     exists o2. rewrite Evals, (do_call_nw fe NW). cbn [tr val]. f_equal. f_equal.
-    assert (Ec1 : concat (map s_tr (map (spec_of fe s) Lr)) = []) by (apply all_empty_concat; apply (silent_rest L HLc)).
+    assert (Ec1 : concat (map s_tr (map (spec_of fe s) Lr)) = []) by (apply all_empty_concat; apply (silent_rest L)).
     assert (Ec2 : concat (map s_tr (map (spec_of fe s) Lt)) = flat_map (tr fe s) args).
-    { unfold Lt. rewrite (noisy_concat L HLc). unfold L. apply flat_map_number. }
+    { unfold Lt. rewrite (noisy_concat L). unfold L. apply flat_map_number. }
     rewrite Ec1, Ec2. cbn [rev app].
     destruct (f_event (fe f)); [rewrite rev_app_distr; reflexivity|rewrite app_nil_r; reflexivity].
   Qed.
 
   (* ---- the emitted C, for every choice the C compiler may make ---- *)
-  Lemma ceval_spec : forall e, se_closed fe e = true -> forall t o, exists o',
+  Lemma ceval_spec : forall e t o, exists o',
     ceval fe (comp fe e) (s, t) o = ((s, rev (tr fe s e) ++ t), val fe s e, o').
   Proof.
-    induction e as [v|k x|f args IH|op l r IHl IHr] using expr_ind'; intros Hc t o.
+    induction e as [v|k x|f args IH|op l r IHl IHr] using expr_ind'; intros t o.
     - exists o. reflexivity.
     - exists o. reflexivity.
-    - cbn [se_closed] in Hc. apply andb_prop in Hc. destruct Hc as (Hall & _).
-      assert (Hcl : Forall (fun a => se_closed fe a = true) args) by (rewrite forallb_forall in Hall; apply Forall_forall; auto).
-      assert (Hargs : Forall (arg_ok fe s) args).
+    - assert (Hargs : Forall (arg_ok fe s) args).
       { rewrite Forall_forall in *. intros a Ha. unfold arg_ok, tspec. intros t0 o0. apply IH; auto. }
       cbn [comp].
       destruct (2 <=? length (filter (fun b => b) (map (has_se fe) args)))%nat eqn:E.
       + apply call_seq; auto.
       + apply call_plain; auto. apply Nat.leb_gt in E. lia.
-    - cbn [se_closed] in Hc. apply andb_prop in Hc. destruct Hc as (C1 & C2).
-      cbn [comp tr val].
+    - cbn [comp tr val].
       destruct (has_se fe l && has_se fe r) eqn:E; cbn [ceval].
-      + destruct (IHl C1 t o) as (o1 & ->). destruct (IHr C2 (rev (tr fe s l) ++ t) o1) as (o2 & ->).
+      + destruct (IHl t o) as (o1 & ->). destruct (IHr (rev (tr fe s l) ++ t) o1) as (o2 & ->).
         exists o2. rewrite rev_app_distr, <- app_assoc. reflexivity.
       + destruct (pick o) as [c o1]. destruct (Nat.even c).
-        * destruct (IHl C1 t o1) as (o2 & ->). destruct (IHr C2 (rev (tr fe s l) ++ t) o2) as (o3 & ->).
+        * destruct (IHl t o1) as (o2 & ->). destruct (IHr (rev (tr fe s l) ++ t) o2) as (o3 & ->).
           exists o3. rewrite rev_app_distr, <- app_assoc. reflexivity.
         * (* right operand first: one of the two is silent *)
-          destruct (IHr C2 t o1) as (o2 & ->). destruct (IHl C1 (rev (tr fe s r) ++ t) o2) as (o3 & ->).
+          destruct (IHr t o1) as (o2 & ->). destruct (IHl (rev (tr fe s r) ++ t) o2) as (o3 & ->).
           exists o3. apply andb_false_iff in E. destruct E as [E|E].
-          -- rewrite (unmarked_silent fe NW s l C1 E). cbn [rev app]. reflexivity.
-          -- rewrite (unmarked_silent fe NW s r C2 E). rewrite app_nil_r. cbn [rev app]. reflexivity.
+          -- rewrite (unmarked_silent fe NW s l E). cbn [rev app]. reflexivity.
+          -- rewrite (unmarked_silent fe NW s r E). rewrite app_nil_r. cbn [rev app]. reflexivity.
   Qed.
 End Seq.
 
-(* no function writes a variable, unmarked callees have unmarked arguments: for every order the C
-   compiler may choose, the compiled expression leaves the same store, trace and value as Lua *)
+(* no function writes a variable (their effects are events and values): for every expression and every order
+   the C compiler may choose, the compiled expression leaves the same store, trace and value as Lua.
+   (Before /repo 7b4cb3f this needed the extra hypothesis that unmarked callees have unmarked arguments.) *)
 Theorem order_preserved_partial fe e st o :
-  no_writes fe -> se_closed fe e = true -> nelua_run fe e st o = lua_run fe e st.
+  no_writes fe -> nelua_run fe e st o = lua_run fe e st.
 Proof.
-  intros NW Hc. destruct st as [s t]. unfold nelua_run, lua_run.
-  destruct (ceval_spec fe NW s e Hc t o) as (o' & ->). rewrite (leval_spec fe NW s e t). reflexivity.
+  intros NW. destruct st as [s t]. unfold nelua_run, lua_run.
+  destruct (ceval_spec fe NW s e t o) as (o' & ->). rewrite (leval_spec fe NW s e t). reflexivity.
 Qed.
 
 (* non-vacuity: two printing calls under a printing call, and a silent wrapper *)
@@ -165,7 +161,16 @@ Definition fe_ex : fenv := fun f =>
   end.
 Definition e_ex : expr :=
   EBin AAdd (ECall 2 [ECall 1 []; ECall 3 [EVar VGlobal 0]; ECall 1 [EConst 7]]) (ECall 3 [EVar VLocal 0]).
-Example ex_partial_hyps : no_writes fe_ex /\ se_closed fe_ex e_ex = true.
-Proof. split; [intros [|[|[|f]]]; reflexivity|reflexivity]. Qed.
+Example ex_partial_hyps : no_writes fe_ex.
+Proof. intros [|[|[|f]]]; reflexivity. Qed.
 Example ex_partial_run : nelua_run fe_ex e_ex ([3], []) [2%nat; 1%nat] = lua_run fe_ex e_ex ([3], []).
+Proof. reflexivity. Qed.
+
+(* g(h(f(1)), h(f(2))) with h free of side effects (3) and f printing (1), g printing (2): repaired in
+   /repo 7b4cb3f - both arguments are now marked and hoisted, every C evaluation order agrees with Lua *)
+Definition e_wrapped_args : expr := ECall 2 [ECall 3 [ECall 1 [EConst 1]]; ECall 3 [ECall 1 [EConst 2]]].
+Lemma wrapped_args_sequenced st o : nelua_run fe_ex e_wrapped_args st o = lua_run fe_ex e_wrapped_args st.
+Proof. apply order_preserved_partial. exact ex_partial_hyps. Qed.
+Example wrapped_args_hoisted : comp fe_ex e_wrapped_args =
+  CCallSeq 2 [(true, CCall 3 [CCall 1 [CConst 1]]); (true, CCall 3 [CCall 1 [CConst 2]])].
 Proof. reflexivity. Qed.
